@@ -219,7 +219,7 @@ def run(chk, w):
 
 def _msg_offset(disp, a, D):
     """argument is message[data_index + k] (value) or &message[data_index + k] (pointer): return k, else None"""
-    o = rules.strip_casts(disp, a)
+    o = rules.resolve_local(disp, rules.strip_casts(disp, a))      # `const uint8_t version = message[data_index];` then `version`
     i = disp.resolve(o)
     if i is None:
         return None
@@ -265,18 +265,32 @@ def _from_addr_param(disp, a, D):
     if ai is None or ai.op != "alloca":
         return False
     cells = {ai.id}
-    # follow memcpy temp <- local
-    for c in disp.calls():
-        if c.callee and c.callee.startswith("llvm.memcpy"):
-            d = disp.resolve(rules.strip_casts(disp, c.args[0]))
-            while d is not None and d.op in ("bitcast", "getelementptr"):
-                d = disp.resolve(d["a"] if d.op == "bitcast" else d["base"])
-            if d is not None and d.id in cells:
-                s = disp.resolve(rules.strip_casts(disp, c.args[1]))
-                while s is not None and s.op in ("bitcast", "getelementptr"):
-                    s = disp.resolve(s["a"] if s.op == "bitcast" else s["base"])
-                if s is not None and s.op == "alloca":
-                    cells.add(s.id)
+    # follow copies backwards to a fixpoint: memcpy temp <- local, and whole-struct loads stored into a copy (small structs travel as one integer)
+    def _base(o):
+        x = disp.resolve(rules.strip_casts(disp, o))
+        while x is not None and x.op in ("bitcast", "getelementptr"):
+            x = disp.resolve(x["a"] if x.op == "bitcast" else x["base"])
+        return x
+    grew = True
+    while grew:
+        grew = False
+        for c in disp.all_insts():
+            if c.op == "call" and c.callee and c.callee.startswith("llvm.memcpy"):
+                d = _base(c.args[0])
+                if d is not None and d.id in cells:
+                    s = _base(c.args[1])
+                    if s is not None and s.op == "alloca" and s.id not in cells:
+                        cells.add(s.id)
+                        grew = True
+            elif c.op == "store" and c["ptr"].get("k") == "inst":
+                d = _base(c["ptr"])
+                if d is not None and d.id in cells:
+                    v = disp.resolve(rules.strip_casts(disp, c["val"]))
+                    if v is not None and v.op == "load":
+                        s = _base(v["ptr"])
+                        if s is not None and s.op == "alloca" and s.id not in cells:
+                            cells.add(s.id)
+                            grew = True
     ok = False
     for s in disp.all_insts():
         if s.op == "store" and s["ptr"].get("k") == "inst":
